@@ -302,9 +302,11 @@ def main(argv=None):
   write_evidence(prop, tier, seed, wall, total_obl, discharged, functions, axioms, solver_time, solver_queries,
                  solver_max, backends, per_unit, samples_out, sample_stats, violations, undecided, errors,
                  known_hits, units, standin_out, bounded_sym)
-  print("property=%s tier=%s units=%d obligations=%d discharged=%d violations=%d undecided=%d errors=%d "
-        "known=%d wall=%.1fs" % (prop, tier, len(units), total_obl, discharged, len(violations), len(undecided),
-                                 len(errors), len(known_hits), wall))
+  print("property=%s tier=%s units=%d obligations=%d discharged=%d bounded_shape_obligations=%d standin_cases=%d "
+        "violations=%d undecided=%d errors=%d known=%d wall=%.1fs"
+        % (prop, tier, len(units), total_obl, discharged, int((bounded_sym or {}).get("obligations", 0)),
+           sum(int(x.get("evaluations") or 0) for x in standin_out), len(violations), len(undecided),
+           len(errors), len(known_hits), wall))
   return exit_code
 
 
@@ -402,6 +404,33 @@ def write_evidence(prop, tier, seed, wall, total_obl, discharged, functions, axi
     "wall_s": round(wall, 2),
     "violations": len(violations),
   }
+  # counts in the exploration-style keys as well (measured on this run): what was evaluated besides the unbounded proofs
+  bs = bounded_sym or {}
+  n_bounded_obl = int(bs.get("obligations", 0))
+  n_standin_cases = sum(int(x.get("evaluations") or 0) for x in standin_out)
+  n_native = int((sample_stats or {}).get("executions", 0))
+  cov = ev["coverage"]
+  cov["evaluations"] = n_bounded_obl + n_standin_cases + n_native + total_obl
+  cov["distinct_nontrivial"] = (len(set(u_["unit"] for u_ in per_unit)) + len(bs.get("units", {}))
+                                + sum(int(x.get("distinct_nontrivial") or 0) for x in standin_out))
+  cov["rule"] = ("evaluations = SMT-discharged obligations of fixed-shape (bounded symbolic) units + obligations of unbounded units "
+                 "+ native stand-in cases + native cross-check executions; distinct_nontrivial counts distinct units / stand-ins "
+                 "(each a different function, shape or clause set), a conservative lower bound of distinct cases")
+  if total_obl == 0:
+    # no unbounded obligation: this run is NOT reported at proof level
+    if n_bounded_obl > 0:
+      ev["level"] = "other"
+      cov["explanation"] = ("all units of this property are bounded symbolic units (values symbolic, shape fixed: see "
+                            "bounded_symbolic_units); their obligations are discharged by SMT but, because of the shape "
+                            "bound, are not reported as proof-level obligations.  " + cov["explanation"])
+    else:
+      ev["level"] = "exploration"
+      cov["explanation"] = ("bounded stand-ins only: native runs of the real functions against independent oracles over the "
+                            "stated bounds; nothing is proved")
+      cov["samples"] = [{"standin": x.get("name"), "cases": x.get("evaluations"), "bound": x.get("bound"),
+                         "examples": x.get("samples", [])[:3]} for x in standin_out] or cov["samples"]
+    for k_ in ("obligations", "discharged"):
+      cov["unbounded_" + k_] = cov.pop(k_)
   os.makedirs(os.path.join(VERIF, "evidence"), exist_ok=True)
   with open(os.path.join(VERIF, "evidence", prop + ".json"), "w") as f:
     json.dump(ev, f, indent=1, default=str)
